@@ -87,6 +87,8 @@ class C15(World):
         self.crash_plan = None
         self.crash_seen = 0
         self.crashed = None
+        self.outage = {}
+        self.partitions = False
 
     # -- policies ------------------------------------------------------------------
     def behaviour(self, fi, seen):
@@ -103,6 +105,16 @@ class C15(World):
     def fault_policy(self, conn):
         if not self.faults_on or not self.enabled_faults or self.force_beh is not None:
             return (F_NONE, None)
+        # partitions: a host may be unreachable for a few connections in a row, then heal
+        left = self.outage.get(conn.host, 0)
+        if left > 0:
+            self.outage[conn.host] = left - 1
+            self.sim.count("fault.net.partition-connection")
+            self.nontrivial = True
+            return ([F_REFUSED, F_TIMEOUT][left % 2], None)
+        if self.partitions and self.ch.flag("net.partition", 0.04):
+            self.outage[conn.host] = 1 + self.ch.pick("net.partition.len", 4)
+            self.sim.count("fault.net.partition-start")
         if not self.ch.flag("net.fault", 0.12):
             return (F_NONE, None)
         kind = self.enabled_faults[self.ch.pick("net.kind", len(self.enabled_faults))]
@@ -117,7 +129,8 @@ class C15(World):
         import errno
         if not path.startswith(DATA_DIR) or self.force_beh is not None or self.in_mutation_probe:
             return
-        kind = {"write": "enospc-on-write", "replace": "eio-on-replace", "open": "eio-on-create"}.get(op)
+        kind = {"write": "enospc-on-write", "replace": "eio-on-replace", "open": "eio-on-create",
+                "mkdir": "eacces-on-mkdir"}.get(op)
         if kind not in self.disk_faults:
             return
         if op == "open" and self.fs.exists(path):
@@ -129,6 +142,8 @@ class C15(World):
         self.sim.log(f"disk fault: {kind} on {path.rsplit('/', 1)[-1]}")
         if kind == "enospc-on-write":
             raise OSError(errno.ENOSPC, "No space left on device", path)
+        if kind == "eacces-on-mkdir":
+            raise PermissionError(errno.EACCES, "Permission denied", path)
         raise OSError(errno.EIO, "Input/output error", path)
 
     def short_write(self, path, n):
@@ -394,6 +409,7 @@ class C15(World):
         if self.faults_on:
             self.behs, self.beh_w = BEH_ALL, BEH_W_ALL
             self.enabled_faults = [k for k in NET_FAULTS if ch.flag("cfg.fault." + k, 0.5)]
+            self.partitions = ch.flag("cfg.fault.partitions", 0.4)
         self.fs.bufsize = [8192, 512, 16][ch.pick("cfg.bufsize", 3)]
         n_slots = 1 + ch.pick("cfg.n_id", 3)
         if variant == 2:
@@ -418,7 +434,7 @@ class C15(World):
         self.fs.on_torn = self.on_torn
         self.disk_faults = []
         if self.faults_on:
-            self.disk_faults = [k for k in ("enospc-on-write", "eio-on-replace", "eio-on-create", "short-write")
+            self.disk_faults = [k for k in ("enospc-on-write", "eio-on-replace", "eio-on-create", "short-write", "eacces-on-mkdir")
                                 if ch.flag("cfg.fault.disk." + k, 0.35)]
             if self.disk_faults:
                 self.fs.faults = self.disk_fault
